@@ -14,6 +14,37 @@ Theorem history_is_pointwise_fresh : forall (CS : Type) (c : cid CS) (fresh : li
   run_history c sts h = map (fun o => snd (exec c fresh o)) h.
 Proof. intros CS. exact run_history_fresh. Qed.
 
+(* An earlier run that was left unfinished (a suspended rows() generator, an open Writer) and is finalized only in the
+   middle of a later run - after any number j of its outputs - does not disturb the later run: its outcome is that of
+   the same run alone, for every CID whose checks keep their state in cleanup() ... *)
+Theorem late_finalisation_harmless : forall (CS : Type) (c : cid CS),
+  (forall ck st, In ck (c_checks c) -> ck_clean ck st = st) ->
+  forall sts first m limit raws fault j,
+  snd (exec c sts (OpLate first m limit raws fault j)) = snd (exec c sts (OpRows m limit raws fault)).
+Proof. intros CS. exact late_finalisation_harmless_lemma. Qed.
+(* ... which every built-in check does (IsUnique, DistinctCount; cleanup() is inherited from AbstractCheck) *)
+Theorem late_finalisation_harmless_builtin : forall fixed allowed header fs (ks : list ckind) sts first m limit raws fault j,
+  let c := mkcid fixed allowed header fs ks in
+  snd (exec c sts (OpLate first m limit raws fault j)) = snd (exec c sts (OpRows m limit raws fault)).
+Proof.
+  intros fixed allowed header fs ks sts first m limit raws fault j c. apply late_finalisation_harmless_lemma.
+  intros ck st Hin. unfold c, mkcid in Hin. cbn [c_checks] in Hin. apply in_map_iff in Hin as [k [<- _]].
+  destruct k; reflexivity.
+Qed.
+(* the hypothesis is needed: with a check that forgets its keys in cleanup(), finalizing an abandoned reader after the
+   first row of the next run lets a duplicate through *)
+Example late_finalisation_matters_when_cleanup_forgets :
+  let forgetful := {| ck_reset := ck_reset (check_of (KUnique [0%nat])); ck_row := ck_row (check_of (KUnique [0%nat]));
+                      ck_end := ck_end (check_of (KUnique [0%nat])); ck_clean := fun _ => SUnique [] |} in
+  let c := {| c_fmt := c_fmt (mkcid false None 0 [] []); c_header := 0; c_fields := [mkfield (txt "k") false None HText];
+              c_checks := [forgetful] |} in
+  let data := [[txt "a"]; [txt "a"]] in
+  map (@oc_raised) [snd (exec c [] (OpLate (LFRead MRaise None data 1) MRaise None data false 1));
+                    snd (exec c [] (OpRows MRaise None data false))]
+  = [None; Some {| e_family := FCheck; e_loc := {| l_line := 1; l_cell := 0 |}; e_field := None;
+                   e_see_also := Some {| l_line := 0; l_cell := 0 |} |}].
+Proof. vm_compute. reflexivity. Qed.
+
 (* non-vacuity: reading a,b and then writing a: the write is accepted although 'a' was seen by the read *)
 Example history_example :
   let c := mkcid false None 0 [mkfield (txt "k") false None HText] [KUnique [0%nat]] in
